@@ -120,6 +120,11 @@ def run(repo, rep):
                       'same content whether laid out flat or broken',
                       'a flat_choice built in scenario %s shows %s when flat but %s when broken: the content depends on the width'
                       % (label, sorted(fl)[:2], sorted(br)[:2]), nontrivial=True)
+            okc, whyc = S.fc_context_agreement(fc)
+            n += 1
+            rep.check(okc, 'C03.b', '%s:flat=broken:same-depth:%s' % (label.split('[')[0].split('{')[0], _fcl(fc)), where,
+                      'a value is printed at the same nesting depth whether laid out flat or broken',
+                      'a flat_choice built in scenario %s: %s - with a depth limit the content depends on the width' % (label, whyc), nontrivial=True)
     rep.floor('C03.b:choices', n, 8)
     # string evaluator: same pieces under every strategy
     from .c08 import string_printer_paths, STRATEGIES
@@ -205,6 +210,10 @@ def run(repo, rep):
     # for the quote chosen for the whole value (string model)
     n += strmodel.run(repo, rep, {'pieces': 'C03.b', 'escaping': 'C03.b'})
     rep.floor('C03.c', n, 14)
+    # C03.e: what the engine emits is a rendering of the document under some choice of flat / broken for its groups and fill
+    # separators (interpreted layouts: nothing is dropped, duplicated or replaced when a separator or a group breaks)
+    from . import layoutmodel
+    rep.floor('C03.e', layoutmodel.run(repo, rep, {'C04': 'C03.e'}), 1)
 
     # ---------------------------------------------------------------- C03.d one set of settings for every variant of a value
     # the flat and the broken rendering of a value are produced under contexts that differ at most in what the context model
